@@ -13,7 +13,8 @@ from . import molcommon as MC
 
 PROPERTY = 'C12'
 LEVEL = 'exploration'
-RULE = ('each case is a HISTORY: 6-10 (thorough 25) logical inputs (cut, shared, virtual, ambiguous polymer strings), each in up to '
+RULE = ('each case is a HISTORY: 6-10 (thorough 25) logical inputs (cut, shared, virtual, ambiguous polymer strings; 30 % with one definition '
+        'repeated under a second name that some coarse nodes use), each in up to '
         '4 presentations (whole string, whole string with permuted fragment definitions, from_graph, from_fragment_dicts with '
         'fragment dictionaries parsed once and SHARED by every later call), shuffled with repeats and interleaved with reader '
         'and sampler calls in one process. Oracle (pure-function model): the canonical dump (all node/edge attributes of fine '
@@ -47,6 +48,26 @@ def permute_fragments(rng, frag_string):
     return '.'.join(out)
 
 
+def add_alias(rng, base_string, frag_string):
+    """a second name for one fragment: the same definition text twice in one block under different names, some (possibly
+    all, possibly none) of the coarse nodes renamed to the alias"""
+    if frag_string.count('{') != 1:
+        return None
+    items = frag_string[1:-1].split(',')
+    k = rng.randrange(len(items))
+    name, _, text = items[k].partition('=')
+    name = name[1:]
+    alias = name + 'q'
+    if any(it.startswith('#' + alias + '=') for it in items):
+        return None
+    items.insert(rng.randrange(len(items) + 1), '#%s=%s' % (alias, text))
+    spots = [m for m in re.finditer(r'\[#%s(?=[;\]])' % re.escape(name), base_string)]
+    chosen = [m for m in spots if rng.random() < 0.5]
+    for m in reversed(chosen):
+        base_string = base_string[:m.start()] + '[#' + alias + base_string[m.end():]
+    return base_string, '{' + ','.join(items) + '}'
+
+
 def logical_input(rng):
     from ..gen import ambig
     r = rng.random()
@@ -75,6 +96,10 @@ def logical_input(rng):
         c = dict(kind='ambig', base_string=base, frag_string=frag, kw={'legacy': a['legacy']}, features=a['features'])
     if c is None:
         return None
+    if rng.random() < 0.3:
+        al = add_alias(rng, c['base_string'], c['frag_string'])
+        if al is not None:
+            c = dict(c, base_string=al[0], frag_string=al[1], features=sorted(set(c['features']) | {'same_definition_under_two_names'}))
     base = dict(base_string=c['base_string'], frag_string=c['frag_string'])
     kw = c.get('kw', {})
     pres = [dict(base, ctor='string', kw=kw, pres='string'),
